@@ -84,7 +84,9 @@ structure DocOK (env : Env) (o : Operation) (d : Doc) (st : St) : Prop where
   /-- … and so is every fragment definition -/
   fragEq : ∀ f' ∈ d.frags, ∃ f, findFragment? env.frags f'.name = some f ∧ undoFrag st.marks f' = expectedFrag f
 
-/-- text clause: the transport receives the printed text, re-indented, character for character -/
+/-- text clause: the transport receives the printed text, re-indented, character for character.
+    (Texts of at least two lines: a printed operation has at least three, and `format_multiline_strings` only
+    rewrites two or more adjacent constants — the model is validated on that domain.) -/
 def TextOK (env : Char → Bool) (vi off : Nat) (q : List Char) : Prop :=
   sentText env vi off q = some (expectedSent (vi + off) q)
 
@@ -92,9 +94,15 @@ def TextOK (env : Char → Bool) (vi off : Nat) (q : List Char) : Prop :=
 def C02_full : Prop :=
   (∀ (env : Env) (fuel : Nat) (o : Operation) (marksIn : List Nat) (d : Doc) (st : St),
       Valid env o → addOperation env fuel o marksIn = .ok (d, st) → DocOK env o d st)
-  ∧ (∀ (penv : Char → Bool) (vi off : Nat) (q : List Char), splitlines q ≠ [] → TextOK penv vi off q)
+  ∧ (∀ (penv : Char → Bool) (vi off : Nat) (q : List Char), 2 ≤ (splitlines q).length → TextOK penv vi off q)
 
 /-! ### The closure -/
+
+/-- `_get_fragments_names(selection_set)` is exactly the set of fragments reachable from the selection set through
+    the spread graph (all inputs; DFS-closure induction over the fuel). -/
+theorem fragment_names_iff_reachable (frags : List Fragment) (fuel : Nat) (sels : List Selection) (L : List String)
+    (h : fragNames frags fuel sels = .ok L) (n : String) : n ∈ L ↔ Reach frags sels n :=
+  fragNames_iff frags fuel sels L h n
 
 /-- `closure_sound` (all inputs): what `_get_all_related_fragments` adds to the generator's sets is reachable —
     the related set is within the reachable set as soon as the generator's own sets are. -/
@@ -128,6 +136,12 @@ theorem closure_complete (frags : List Fragment) (fuel : Nat) (o : Operation) (m
     exact (subset_iff _ _).mp this b hb
   · obtain ⟨r, hr0, hp⟩ := hr
     exact (hiff b).mpr (Or.inr (Or.inr ⟨m, hm, f, hf, ⟨r, hr0, hp.tail ⟨fa, hfa, hb⟩⟩⟩))
+
+/-- Fuel is a proof device only: once `_get_fragments_names` answers, every larger fuel gives the same answer
+    (the drivers' large constant is immaterial; exhaustion models Python's RecursionError on a spread cycle). -/
+theorem fuel_irrelevant (frags : List Fragment) (fuel fuel' : Nat) (hle : fuel ≤ fuel') (sels : List Selection) (L : List String)
+    (h : fragNames frags fuel sels = .ok L) : fragNames frags fuel' sels = .ok L :=
+  fragNames_mono_le frags fuel fuel' hle sels L h
 
 /-- The finding region of C02-F7 is exactly the failure region: (inside `Proved_02`) a spread was dropped iff a
     reachable fragment is missing from what is sent. -/
@@ -370,9 +384,9 @@ theorem C02_partial :
     (∀ (env : Env) (fuel : Nat) (o : Operation) (marksIn : List Nat) (d : Doc) (st : St),
         Valid env o → addOperation env fuel o marksIn = .ok (d, st) →
         Supported_02 env fuel o st → Proved_02 env o st → DocOK env o d st)
-    ∧ (∀ (penv : Char → Bool) (vi off : Nat) (q : List Char), splitlines q ≠ [] → trigger q = none → TextOK penv vi off q) :=
+    ∧ (∀ (penv : Char → Bool) (vi off : Nat) (q : List Char), 2 ≤ (splitlines q).length → trigger q = none → TextOK penv vi off q) :=
   ⟨fun env fuel o marksIn d st hv h hs hp => sent_doc_shape env fuel o marksIn d st hv h hs hp,
-   fun penv vi off q hne ht => embed_safe penv vi off q ht hne⟩
+   fun penv vi off q hne ht => embed_safe penv vi off q ht (by intro h0; rw [h0] at hne; simp at hne)⟩
 
 /-! ### Non-vacuity -/
 
@@ -404,7 +418,7 @@ example : Valid exEnv exOp := by
 
 /-- a safe text with quotes, `#`, `=`, backslash escapes and a blank line -/
 example : trigger "query Q {\n  a: echo(s: \"x # y = \\\"z\\\" \\\\ \\t\")\n\n}".toList = none
-    ∧ splitlines "query Q {\n  a: echo(s: \"x # y = \\\"z\\\" \\\\ \\t\")\n\n}".toList ≠ [] := by
+    ∧ 2 ≤ (splitlines "query Q {\n  a: echo(s: \"x # y = \\\"z\\\" \\\\ \\t\")\n\n}".toList).length := by
   constructor <;> decide
 
 /-- the four text triggers on the findings' witnesses -/
